@@ -15,10 +15,17 @@
 (* has happened (before that the credit is the configured BurstCredit, which  *)
 (* Validate does not bound from above).                                       *)
 (*                                                                            *)
-(* Checked with Apalache (unbounded integers: all hard limits, soft quotas,   *)
-(* burst credits and scales at once):                                         *)
+(* The burst credit is the exact rational of Tracker.tla scaled by Scale; the  *)
+(* invariant needs Scale >= 1 only (not that Scale is a common multiple of    *)
+(* the soft quotas), so it covers every scale the checks use.                 *)
+(*                                                                            *)
+(* Apalache (unbounded integers: all hard limits, soft quotas, burst credits  *)
+(* and scales at once):                                                       *)
 (*   apalache-mc check --cinit=ConstInit --init=Init    --inv=Inv --length=0  *)
 (*   apalache-mc check --cinit=ConstInit --init=IndInit --inv=Inv --length=1  *)
+(* TLAPS: TrackerInd_proof.tla (Spec => []Inv, unmodified Tracker.tla).       *)
+(* TLC cross-check on small trackers: TrackerInd_tlc.tla, TLC_TrackerInd.cfg. *)
+(* Broken variants that must fail: TrackerInd_bad.tla.                        *)
 (***************************************************************************)
 EXTENDS Integers
 
